@@ -441,6 +441,7 @@ func (r *seqRun) run(base string) error {
 		_, pan := guarded(func() error {
 			switch op.Op {
 			case "put":
+				ev["vlen"] = len(valBytes(c.Vals[op.V-1], op.K))
 				err := r.st.Put(key, valBytes(c.Vals[op.V-1], op.K))
 				if err == types.ErrKeyExists {
 					ev["r"] = "exists"
